@@ -7,4 +7,15 @@ NoFeatures == {}
 AllFeatures == {"reconstruct", "get", "full", "abandon"}
 PathFeatures == {"reconstruct", "get", "abandon"}
 FullFeatures == {"full"}
+\* several iterators of one sampler object alive at once
+LiveFeatures == {"get", "live2"}
+LiveAbandonFeatures == {"get", "abandon", "live2"}
+LiveFullFeatures == {"get", "full", "abandon", "live2"}
+AllLiveFeatures == {"reconstruct", "get", "full", "abandon", "live3"}
+\* the rejected shared-buffer design: two live iterators (must be refuted) / one at a time (cannot be told apart)
+SharedBufLive == {"get", "live2", "sharedbuf"}
+SharedBufSerial == {"reconstruct", "get", "abandon", "sharedbuf"}
+RandomOnly == {"random"}
+OneMode == {"uneven"}
+TwoModes == {"drop", "ignore"}
 =============================================================================
